@@ -342,4 +342,6 @@ def c02_commands(pm):
     e = pm.globals.get('COMMANDS')
     if isinstance(e, ast.Call) and call_name(e) == 'set' and isinstance(e.args[0], ast.Constant):
         return set(e.args[0].value)
+    if isinstance(e, ast.Constant) and isinstance(e.value, str):
+        return set(e.value)
     raise AnchorMissing('path.COMMANDS')
